@@ -4,7 +4,7 @@
    No Extract Constant, no further Extract Inductive. *)
 From Coq Require Import ExtrOcamlBasic.
 From LoraV Require Import Base.Prelude Model.Toa Spec.Airtime Model.Ldro Spec.LdroSpec
-  Base.Bytes Crypto.AES Crypto.CMAC Model.Frame Spec.L2Frame Model.Exec Model.MacCmd Gen.CmdTables.
+  Base.Bytes Crypto.AES Crypto.CMAC Model.Frame Spec.L2Frame Model.Exec Model.MacCmd Gen.CmdTables Model.MacFields.
 Extraction Language OCaml.
 Extraction "model.ml"
   Toa.toa_us Toa.toa_safe Toa.ldro Toa.t_sym_us Toa.bw_hz
@@ -22,4 +22,5 @@ Extraction "model.ml"
   Frame.ja_join_nonce Frame.ja_net_id Frame.ja_dev_addr Frame.ja_dl_settings Frame.ja_rx_delay Frame.ja_c_f_list
   Bytes.le_value Bytes.le_bytes
   MacCmd.parse_all CmdTables.dl_mac_table CmdTables.ul_mac_table CmdTables.dl_dut_table CmdTables.ul_dut_table
-  CmdTables.dl_mc_table CmdTables.ul_mc_table.
+  CmdTables.dl_mc_table CmdTables.ul_mc_table
+  MacFields.cr_new MacFields.mc_set MacFields.mc_build MacFields.mc_get MacFields.to_hex_msb MacFields.from_hex_msb.
